@@ -830,3 +830,67 @@ class MaskedSel:
 
     def all(self):
         return reduce("all", binop("or", unop("invert", self._m()), self.t))
+
+
+# ---- topk: assumed contract of torch.topk (k concrete): k pairwise distinct positions, values = input there,
+#      sorted (descending for largest=True), every other value is <= (>=) the last selected one
+_TOPK = [0]
+
+
+def _topk(t, k, dim=-1, largest=True, sorted=True):
+    ctx = cur()
+    d = norm_dim(dim, t.rank)
+    k = simp_int(k)
+    if not isinstance(k, int):
+        raise Unsupported("topk with symbolic k")
+    if d != t.rank - 1:
+        raise Unsupported("topk along a non-last dim")
+    _TOPK[0] += 1
+    n = t.shape[d]
+    ctx.wf("topk-k-le-n", zint(k) <= zint(n))
+    nouter = t.rank - 1
+    dt = t.dtype if t.dtype != "b" else "i"
+    from .core import sort_of
+
+    V = z3.Function(f"topk_val{_TOPK[0]}", *([z3.IntSort()] * t.rank), sort_of(dt))
+    P = z3.Function(f"topk_idx{_TOPK[0]}", *([z3.IntSort()] * t.rank), z3.IntSort())
+    a = t.snap()
+    o = [z3.Int(f"tk{_TOPK[0]}_{j}") for j in range(nouter)]
+    oshape = list(t.shape[:-1])
+    orng = [z3.And(v >= 0, v < zint(m)) for v, m in zip(o, oshape)]
+    kk = z3.Int(f"tkk{_TOPK[0]}")
+    cmp = (lambda x, y: x >= y) if largest else (lambda x, y: x <= y)
+    facts = []
+    for j in range(k):
+        facts.append(z3.And(P(*o, j) >= 0, P(*o, j) < zint(n), V(*o, j) == cast(a(tuple(o) + (P(*o, j),)), dt)))
+        for j2 in range(j + 1, k):
+            facts.append(P(*o, j) != P(*o, j2))
+            facts.append(cmp(V(*o, j), V(*o, j2)))
+    body = z3.And(*facts) if facts else z3.BoolVal(True)
+    pats = [V(*o, 0)] if o else None
+    ctx.assume(z3.ForAll(o, z3.Implies(z3.And(*orng), body), patterns=[z3.MultiPattern(*[V(*o, 0)])]) if o else body)
+    others = z3.Implies(z3.And(*orng, kk >= 0, kk < zint(n), *[kk != P(*o, j) for j in range(k)]),
+                        cmp(V(*o, k - 1), cast(a(tuple(o) + (kk,)), dt)))
+    ctx.assume(z3.ForAll(o + [kk], others))
+    ctx.notes.append("assumed contract of torch.topk: distinct positions, values sorted, all other values dominated")
+    vals = mk(tuple(oshape) + (k,), dt, lambda I: V(*[zint(x) for x in I]))
+    idxs = mk(tuple(oshape) + (k,), "i", lambda I: P(*[zint(x) for x in I]))
+    vals.prov = ("topk", {"V": V, "P": P, "k": k, "n": n, "src": t})
+    return MaxResult_(vals, idxs)
+
+
+class MaxResult_(tuple):
+    def __new__(cls, values, indices):
+        return super().__new__(cls, (values, indices))
+
+    @property
+    def values(self):
+        return self[0]
+
+    @property
+    def indices(self):
+        return self[1]
+
+
+TM["topk"] = _topk
+TF["topk"] = _topk
